@@ -2841,7 +2841,9 @@ func (b *builder) rangeFunc(fn *Function, x Value, rng *ast.RangeStmt, label *lb
 		},
 	}
 	call.setType(xsig.Results())
-	fn.emit(&call, nil)
+	// The range statement is the source of the implicit call; without one, the call has no
+	// position and cannot be reported on (for example when it is an infinite recursion).
+	fn.emit(&call, rng)
 
 	exits := fn.exits[unresolved:]
 	b.buildYieldResume(fn, jump, exits, done)
